@@ -78,11 +78,18 @@ class FakeBroker:
         self.low = {}                # p -> low watermark (retention deleted everything below)
         self.committed = {}          # (group, p) -> offset
         self.inflight = []           # asynchronous commits not applied yet
+        self.holes = set()           # (p, offset) that hold no deliverable record (compacted away / a transaction marker)
         self.frozen = False          # the consumer process is dead: its writes no longer land
 
     def append(self, p):
         off = len(self.logs[p])
         self.logs[p].append(('k%d-%d' % (p, off), 'p%d-o%d' % (p, off)))
+        return off
+
+    def append_hole(self, p):
+        off = len(self.logs[p])
+        self.logs[p].append((None, None))
+        self.holes.add((p, off))
         return off
 
     def add_partition(self):
@@ -122,6 +129,8 @@ class Consumer:
         b = ENV['broker']
         p, off = self.assigned
         off = max(off, b.low.get(p, 0))       # (offset out of range: the client resets to the log start)
+        while off < b.high(p) and (p, off) in b.holes:
+            off += 1                          # (offsets without a record are passed over silently)
         if off < b.high(p):
             k, v = b.logs[p][off]
             self.assigned = (p, off + 1)
@@ -378,6 +387,10 @@ def run_incarnation(sc, broker, inc, t0, crash_at, pending_msgs):
                 broker.truncate(m['truncate'], m['to'])
                 rec.rec('truncated', m['truncate'], broker.low.get(m['truncate'], 0))
             else:
+                if m.get('hole_before'):
+                    # (a hole is always followed by a record in the same step: the log never ends in one)
+                    rec.rec('hole', m['p'], broker.append_hole(m['p']))
+                    ENV['fired']['log_hole'] = ENV['fired'].get('log_hole', 0) + 1
                 off = broker.append(m['p'])
                 rec.rec('produced', m['p'], off)
             m['done'] = True
@@ -573,9 +586,10 @@ def judge(sc, incs, broker):
             if k >= len(emits):
                 break
             p, lo, hi = emits[k][3], emits[k][4], emits[k][5]
-            exp = [broker.logs[p][j][1] for j in range(lo, hi + 1)]
+            real = [j for j in range(lo, hi + 1) if (p, j) not in broker.holes]
+            exp = [broker.logs[p][j][1] for j in real]
             if sc.get('keys'):
-                exp = [{'key': broker.logs[p][j][0], 'value': broker.logs[p][j][1]} for j in range(lo, hi + 1)]
+                exp = [{'key': broker.logs[p][j][0], 'value': broker.logs[p][j][1]} for j in real]
             if i0.exc or i0.ret is None:
                 if i0.outs:
                     V.append(Violation('C09', 'C09.content', i0.seq,
@@ -726,10 +740,13 @@ def generate(prop, rng, seed, index, tier):
     reset = rng.choice(['earliest', 'earliest', 'latest', 'latest', None])
     pre = [rng.randrange(nparts) for _ in range(rng.randrange(0, 8))]
     msgs = []
+    holes = rng.random() < 0.25
     t = 0.0
     for _ in range(rng.randrange(0, 14 if big else 9)):
         t += rng.choice(GRID)
         msgs.append({'t': t, 'p': rng.randrange(nparts)})
+        if holes and rng.random() < 0.3:
+            msgs[-1]['hole_before'] = True      # an offset without a record (compaction, a transaction marker) right before it
     total = nparts
     if refresh and rng.random() < 0.6:
         t2 = 0.0
